@@ -213,7 +213,7 @@ theorem preCreate_ok {now : Int} {c c1 : Coll} {ix : Index} (h : preCreate now c
 theorem pairsOK_of_precheck {ix : Index} {docs : List (Val × Val)}
     (h : precheckUnique ix.keys ix.sparse ix.partialFilter docs [] = .ok ()) : PairsOK ix docs := by
   intro a b hab ga gb
-  exact (precheck_ok ix docs [] h).2 a b hab (good_iff.1 ga).2.2 (good_iff.1 gb).2.2
+  exact (precheck_ok ix docs [] h).2 a b hab (good_iff.1 ga).2 (good_iff.1 gb).2
 
 theorem uniqS_with_index {c1 : Coll} {ix : Index} {l : List Index} (hU : UniqS c1)
     (hp : ix.unique = true → PairsOK ix c1.docs) (hl : ∀ i ∈ l, i = ix ∨ i ∈ c1.indexes)
